@@ -49,8 +49,40 @@ PROPERTIES = {
             "payload bytes beyond the bound are copied opaquely (memcpy) by encoders and decoders",
             "stubs: " + "; ".join([FMT] + TRC),
         ],
+        "manifest": {
+            "engine": "kani",
+            "technique": "bounded model checking (Kani/CBMC) of the real encoders/decoders against a reference ZMTP framing spec",
+            "text": "Every decoder entry point equals the reference parse and every encoder entry point emits the reference header, for all header bytes (64-bit length field over its full range), all flag combinations, all MAXMSGSIZE values and all cut positions, within a 12-byte symbolic window / payload length classes 0,3,255,256; SAT-decided, unwinding assertions on.",
+            "design_ref": "DESIGN.md §5 C03",
+            "note": "Bounded: payload bytes beyond the window are assumed to be copied opaquely; Kani's model of std/bytes/tokio-util and the three listed stubs (format!, two tracing entry points) are trusted. Round trip of encoder e and decoder d follows from both meeting the same reference spec.",
+        },
         "outside": "payloads longer than the stated bounds; tokio codec refuses > 64 MiB frames that the manual parser accepts (stated difference)",
     },
+}
+
+
+HOOK_COMMITS = ["e6aec85"]
+
+NOT_APPLICABLE = {
+    "C01": "not claimed yet (machinery under construction)",
+    "C02": "not claimed yet (machinery under construction)",
+    "C04": "not claimed yet (machinery under construction)",
+    "C05": "not claimed yet (machinery under construction)",
+    "C06": "not claimed yet (machinery under construction)",
+    "C07": "not claimed yet (machinery under construction)",
+    "C08": "not claimed yet (machinery under construction)",
+    "C09": "not claimed yet (machinery under construction)",
+    "C10": "not claimed yet (machinery under construction)",
+    "C11": "not claimed yet (machinery under construction)",
+    "C12": "not claimed yet (machinery under construction)",
+    "C13": "not claimed yet (machinery under construction)",
+    "C14": "SNDTIMEO/RCVTIMEO are wall-clock semantics of tokio timers around channel operations and the buffering bound is an end-to-end quantity across three tasks; there is no function whose symbolic execution states it, and a symbolic timer would verify the stub, not rzmq (DESIGN.md §5 C14)",
+    "C15": "LINGER is a multi-actor shutdown protocol over tokio timers, mailboxes and kernel socket buffers; out of reach of solver-based checking of functions (DESIGN.md §5 C15)",
+    "C16": "not claimed yet (machinery under construction)",
+    "C17": "not claimed yet (machinery under construction)",
+    "C18": "not claimed yet (machinery under construction)",
+    "C19": "not claimed yet (machinery under construction)",
+    "C20": "backend equivalence and kernel-object lifecycles (io_uring rings, fds) cannot be encoded; handlers need a live IoUring (DESIGN.md §5 C20)",
 }
 
 
